@@ -37,98 +37,105 @@ theorem NoNlSp_drop (ch r : Bytes) (h : NoNlSp (ch ++ r)) : NoNlSp r := by
   | nil => exact h
   | cons b bs ih => exact ih (NoNlSp_tail b _ h)
 
-/-- the invariant of the simulation: `block_indent` is fixed, the indentation counter has not run past it, and
-    whenever the lexer would strip a blank / trailing blanks, the text does not offer one -/
-structure DqInv (bi : Nat) (st : QSt) (s : Bytes) : Prop where
+/-- the invariant of the simulation: `block_indent` is fixed, the indentation counter has not run past it, the lexer
+    would strip a blank only where the text offers none, and it counts trailing blanks only while the printer knows
+    (`sp`) that the line so far ends in a blank -/
+structure DqInv (bi : Nat) (st : QSt) (sp : Bool) (s : Bytes) : Prop where
   hbi : st.bi = bi
   hci : st.ci ≤ bi
   hsp : st.ci < bi → ∀ r, s ≠ 32 :: r
-  htw : st.tws ≠ 0 → ∀ r, s ≠ 10 :: r
+  htw : st.tws ≠ 0 → sp = true
 
-theorem dqBody_sim (m bi : Nat) (hm : m + 1 ≤ bi) :
-    ∀ s, YChars s → 13 ∉ s → NoSpNl s → (m + 1 < bi → NoNlSp s) →
-    ∀ (fuel : Nat) (st : QSt) (tail : Bytes), DqInv bi st s →
-      (dqBody (spaces m) s ++ tail).length + 1 ≤ fuel →
+theorem dqBody_sim (n bi : Nat) (hn : n ≤ bi) (hbi0 : bi ≠ 0) :
+    ∀ s, YChars s → 13 ∉ s → (n < bi → NoNlSp s) →
+    ∀ (sp : Bool) (fuel : Nat) (st : QSt) (tail : Bytes), DqInv bi st sp s →
+      (dqBody n sp s ++ tail).length + 1 ≤ fuel →
       ∃ fuel' st', tail.length + 1 ≤ fuel' ∧ st'.bi = bi ∧ st'.racc = s.reverse ++ st.racc ∧
-        qloop fuel .dq st (dqBody (spaces m) s ++ tail) = qloop fuel' .dq st' tail := by
+        qloop fuel .dq st (dqBody n sp s ++ tail) = qloop fuel' .dq st' tail := by
   intro s hs
   induction hs with
   | nil =>
-    intro _ _ _ fuel st tail hinv hf
+    intro _ _ sp fuel st tail hinv hf
     exact ⟨fuel, st, by simpa [dqBody] using hf, hinv.hbi, by simp, by simp [dqBody]⟩
   | ascii c rest hlt hne hall hrest ih =>
-    intro hcr hsn hns fuel st tail hinv hf
+    intro hcr hns sp fuel st tail hinv hf
     have hcr' : 13 ∉ rest := fun h => hcr (by simp [h])
     have hc13 : c ≠ 13 := fun h => hcr (by simp [h])
-    have hsn' := NoSpNl_tail c rest hsn
-    have hns' : m + 1 < bi → NoNlSp rest := fun h => NoNlSp_tail c rest (hns h)
+    have hns' : n < bi → NoNlSp rest := fun h => NoNlSp_tail c rest (hns h)
     by_cases h10 : c = 10
-    · -- a newline of the text: literal newline, then the continuation indentation unless an empty line follows
-      subst h10
-      have htws : st.tws = 0 := by
-        by_cases h : st.tws = 0
-        · exact h
-        · exact absurd rfl (hinv.htw h rest)
-      have hbody : dqBody (spaces m) (10 :: rest) ++ tail =
-          10 :: (contIndent (spaces m) rest ++ (dqBody (spaces m) rest ++ tail)) := by
-        simp [dqBody]
-      rw [hbody] at hf ⊢
-      obtain ⟨f, rfl⟩ : ∃ f, fuel = f + 1 := ⟨fuel - 1, by simp at hf; omega⟩
-      rw [qloop_dq_newline f st _ (by rw [hinv.hbi]; omega) (hall _)]
-      by_cases hnext : rest.head? = some 10
-      · -- empty line: no indentation printed
-        have hci : contIndent (spaces m) rest = [] := by simp [contIndent, hnext]
-        rw [hci, List.nil_append] at hf ⊢
-        have hinv' : DqInv bi { st with ci := 0, ind := 0, racc := 10 :: st.racc.drop st.tws, tws := 0 } rest := by
-          refine ⟨hinv.hbi, Nat.zero_le _, ?_, ?_⟩
-          · intro _ r e; rw [e] at hnext; simp at hnext
+    · subst h10
+      cases sp with
+      | true =>
+        -- the line ends in a blank: the line break is the escape `\n`
+        have hbody : dqBody n true (10 :: rest) ++ tail = 92 :: 110 :: (dqBody n false rest ++ tail) := by
+          simp [dqBody]
+        rw [hbody] at hf ⊢
+        obtain ⟨f, rfl⟩ : ∃ f, fuel = (f + 1) + 1 := ⟨fuel - 2, by simp at hf; omega⟩
+        rw [qloop_dq_bs, qloop_esc _ _ 110 10 _ unesc_110]
+        have hinv' : DqInv bi { st with tws := 0, ci := st.bi, ind := 0, racc := 10 :: st.racc } false rest := by
+          refine ⟨hinv.hbi, by simp [hinv.hbi], ?_, ?_⟩
+          · intro h; simp [hinv.hbi] at h
           · intro h; exact absurd rfl h
-        obtain ⟨fuel', st', hf', hb', hr', he'⟩ := ih hcr' hsn' hns' f _ tail hinv' (by simp at hf ⊢; omega)
-        refine ⟨fuel', st', hf', hb', ?_, he'⟩
-        rw [hr', htws]; simp
-      · have hci : contIndent (spaces m) rest = spaces (m + 1) := by
-          simp [contIndent, hnext, spaces_succ]
-        rw [hci] at hf ⊢
-        have hlen : (spaces (m + 1) ++ (dqBody (spaces m) rest ++ tail)).length =
-            (m + 1) + (dqBody (spaces m) rest ++ tail).length := by
-          rw [List.length_append, spaces_length]
-        have hf2 : (m + 1) + (dqBody (spaces m) rest ++ tail).length + 1 ≤ f := by
-          rw [List.length_cons, hlen] at hf; omega
-        obtain ⟨f', rfl⟩ : ∃ f', f = f' + (m + 1) := ⟨f - (m + 1), by omega⟩
-        rw [qloop_dq_skip_spaces (m + 1) f' _ _ (by simp; rw [hinv.hbi]; omega)]
-        have hinv' : DqInv bi { st with ci := 0 + (m + 1), ind := 0 + (m + 1), racc := 10 :: st.racc.drop st.tws, tws := 0 } rest := by
-          refine ⟨hinv.hbi, by simp; omega, ?_, ?_⟩
-          · intro hlt' r e
-            have : m + 1 < bi := by simpa using hlt'
-            have h2 := hns this
-            rw [e] at h2
-            exact h2.1 ⟨rfl, rfl⟩
-          · intro h; exact absurd rfl h
-        obtain ⟨fuel', st', hf', hb', hr', he'⟩ := ih hcr' hsn' hns' f' _ tail hinv' (by omega)
-        refine ⟨fuel', st', hf', hb', ?_, he'⟩
-        rw [hr', htws]; simp
+        obtain ⟨fuel', st', hf', hb', hr', he'⟩ := ih hcr' hns' false f _ tail hinv' (by simp at hf ⊢; omega)
+        exact ⟨fuel', st', hf', hb', by rw [hr']; simp, by simpa using he'⟩
+      | false =>
+        have htws : st.tws = 0 := by
+          by_cases h : st.tws = 0
+          · exact h
+          · exact absurd (hinv.htw h) (by decide)
+        have hbody : dqBody n false (10 :: rest) ++ tail = 10 :: (contIndent n rest ++ (dqBody n false rest ++ tail)) := by
+          simp [dqBody]
+        rw [hbody] at hf ⊢
+        obtain ⟨f, rfl⟩ : ∃ f, fuel = f + 1 := ⟨fuel - 1, by simp at hf; omega⟩
+        rw [qloop_dq_newline f st _ (by rw [hinv.hbi]; exact hbi0) (hall _)]
+        by_cases hnext : rest.head? = some 10
+        · have hci : contIndent n rest = [] := by simp [contIndent, hnext]
+          rw [hci, List.nil_append] at hf ⊢
+          have hinv' : DqInv bi { st with ci := 0, ind := 0, racc := 10 :: st.racc.drop st.tws, tws := 0 } false rest := by
+            refine ⟨hinv.hbi, Nat.zero_le _, ?_, ?_⟩
+            · intro _ r e; rw [e] at hnext; simp at hnext
+            · intro h; exact absurd rfl h
+          obtain ⟨fuel', st', hf', hb', hr', he'⟩ := ih hcr' hns' false f _ tail hinv' (by simp at hf ⊢; omega)
+          refine ⟨fuel', st', hf', hb', ?_, he'⟩
+          rw [hr', htws]; simp
+        · have hci : contIndent n rest = spaces n := by simp [contIndent, hnext]
+          rw [hci] at hf ⊢
+          have hlen : (spaces n ++ (dqBody n false rest ++ tail)).length = n + (dqBody n false rest ++ tail).length := by
+            rw [List.length_append, spaces_length]
+          have hf2 : n + (dqBody n false rest ++ tail).length + 1 ≤ f := by
+            rw [List.length_cons, hlen] at hf; omega
+          obtain ⟨f', rfl⟩ : ∃ f', f = f' + n := ⟨f - n, by omega⟩
+          rw [qloop_dq_skip_spaces n f' _ _ (by simp; rw [hinv.hbi]; omega)]
+          have hinv' : DqInv bi { st with ci := 0 + n, ind := 0 + n, racc := 10 :: st.racc.drop st.tws, tws := 0 } false rest := by
+            refine ⟨hinv.hbi, by simp; omega, ?_, ?_⟩
+            · intro hlt' r e
+              have : n < bi := by simpa using hlt'
+              have h2 := hns this
+              rw [e] at h2
+              exact h2.1 ⟨rfl, rfl⟩
+            · intro h; exact absurd rfl h
+          obtain ⟨fuel', st', hf', hb', hr', he'⟩ := ih hcr' hns' false f' _ tail hinv' (by omega)
+          refine ⟨fuel', st', hf', hb', ?_, he'⟩
+          rw [hr', htws]; simp
     · by_cases h32 : c = 32
       · subst h32
         have hnlt : ¬ st.ci < st.bi := by
           intro h; rw [hinv.hbi] at h; exact hinv.hsp h rest rfl
-        have hbody : dqBody (spaces m) (32 :: rest) ++ tail = 32 :: (dqBody (spaces m) rest ++ tail) := by
+        have hbody : dqBody n sp (32 :: rest) ++ tail = 32 :: (dqBody n true rest ++ tail) := by
           rw [dqBody]; simp [encByte_plain 32 (by decide) (by decide) (by decide) (by decide)]
         rw [hbody] at hf ⊢
         obtain ⟨f, rfl⟩ : ∃ f, fuel = f + 1 := ⟨fuel - 1, by simp at hf; omega⟩
         rw [qloop_dq_space_store f st _ hnlt (hall _)]
-        have hinv' : DqInv bi { st with ind := st.ind + 1, racc := 32 :: st.racc, tws := st.tws + 1 } rest := by
-          refine ⟨hinv.hbi, hinv.hci, ?_, ?_⟩
-          · intro h; exact absurd (by rw [hinv.hbi]; exact h) hnlt
-          · intro _ r e
-            rw [e] at hsn
-            exact hsn.1 ⟨rfl, rfl⟩
-        obtain ⟨fuel', st', hf', hb', hr', he'⟩ := ih hcr' hsn' hns' f _ tail hinv' (by simp at hf ⊢; omega)
+        have hinv' : DqInv bi { st with ind := st.ind + 1, racc := 32 :: st.racc, tws := st.tws + 1 } true rest := by
+          refine ⟨hinv.hbi, hinv.hci, ?_, fun _ => rfl⟩
+          intro h; exact absurd (by rw [hinv.hbi]; exact h) hnlt
+        obtain ⟨fuel', st', hf', hb', hr', he'⟩ := ih hcr' hns' true f _ tail hinv' (by simp at hf ⊢; omega)
         exact ⟨fuel', st', hf', hb', by rw [hr']; simp, he'⟩
-      · -- escapes and plain characters: afterwards the indentation counter is at block_indent, no trailing blanks
-        have hstep : ∃ (k : Nat) (pre : Bytes) (ind' : Nat), dqBody (spaces m) (c :: rest) ++ tail = pre ++ (dqBody (spaces m) rest ++ tail) ∧
+      · have h32b : (c == 32) = false := by simpa using h32
+        have hstep : ∃ (k : Nat) (pre : Bytes) (ind' : Nat), dqBody n sp (c :: rest) ++ tail = pre ++ (dqBody n false rest ++ tail) ∧
             pre.length = k + 1 ∧
-            ∀ f, qloop (f + (k + 1)) .dq st (pre ++ (dqBody (spaces m) rest ++ tail)) =
-              qloop f .dq { st with ci := st.bi, ind := ind', racc := c :: st.racc, tws := 0 } (dqBody (spaces m) rest ++ tail) := by
+            ∀ f, qloop (f + (k + 1)) .dq st (pre ++ (dqBody n false rest ++ tail)) =
+              qloop f .dq { st with ci := st.bi, ind := ind', racc := c :: st.racc, tws := 0 } (dqBody n false rest ++ tail) := by
           by_cases h9 : c = 9
           · subst h9
             refine ⟨1, [92, 116], st.ind + 1, ?_, rfl, ?_⟩
@@ -154,33 +161,33 @@ theorem dqBody_sim (m bi : Nat) (hm : m + 1 ≤ bi) :
                     qloop_esc _ _ 92 92 _ unesc_92]
                   rfl
               · refine ⟨0, [c], st.ind + 1, ?_, rfl, ?_⟩
-                · rw [dqBody]; simp [h10, encByte_plain c h9 h10 h34 h92]
+                · rw [dqBody]; simp [h10, h32b, encByte_plain c h9 h10 h34 h92]
                 · intro f
                   rw [List.cons_append, List.nil_append, qloop_dq_default f st c _ h34 h92 h32 h9 hc13 h10 (hall _)]
         obtain ⟨k, pre, ind', hb, hl, hq⟩ := hstep
         rw [hb] at hf ⊢
         obtain ⟨f, rfl⟩ : ∃ f, fuel = f + (k + 1) := ⟨fuel - (k + 1), by rw [List.length_append, hl] at hf; omega⟩
         rw [hq f]
-        have hinv' : DqInv bi { st with ci := st.bi, ind := ind', racc := c :: st.racc, tws := 0 } rest := by
+        have hinv' : DqInv bi { st with ci := st.bi, ind := ind', racc := c :: st.racc, tws := 0 } false rest := by
           refine ⟨hinv.hbi, by simp [hinv.hbi], ?_, ?_⟩
           · intro h; simp [hinv.hbi] at h
           · intro h; exact absurd rfl h
-        obtain ⟨fuel', st', hf', hb', hr', he'⟩ := ih hcr' hsn' hns' f _ tail hinv' (by
+        obtain ⟨fuel', st', hf', hb', hr', he'⟩ := ih hcr' hns' false f _ tail hinv' (by
           rw [List.length_append, hl] at hf; omega)
         exact ⟨fuel', st', hf', hb', by rw [hr']; simp, he'⟩
   | multi ch rest cp h2 hge hall hrest ih =>
-    intro hcr hsn hns fuel st tail hinv hf
+    intro hcr hns sp fuel st tail hinv hf
     have hcr' : 13 ∉ rest := fun h => hcr (by simp [h])
-    have hbody : dqBody (spaces m) (ch ++ rest) ++ tail = ch ++ (dqBody (spaces m) rest ++ tail) := by
-      rw [dqBody_append_ge80 _ _ _ hge, List.append_assoc]
+    have hbody : dqBody n sp (ch ++ rest) ++ tail = ch ++ (dqBody n false rest ++ tail) := by
+      rw [dqBody_append_ge80 _ _ _ _ h2 hge, List.append_assoc]
     rw [hbody] at hf ⊢
     obtain ⟨f, rfl⟩ : ∃ f, fuel = f + 1 := ⟨fuel - 1, by rw [List.length_append] at hf; omega⟩
     rw [qloop_dq_multi f st ch _ cp h2 hge (hall _)]
-    have hinv' : DqInv bi { st with ci := st.bi, ind := if cp == 10 then 0 else st.ind + 1, racc := ch.reverse ++ st.racc, tws := 0 } rest := by
+    have hinv' : DqInv bi { st with ci := st.bi, ind := if cp == 10 then 0 else st.ind + 1, racc := ch.reverse ++ st.racc, tws := 0 } false rest := by
       refine ⟨hinv.hbi, by simp [hinv.hbi], ?_, ?_⟩
       · intro h; simp [hinv.hbi] at h
       · intro h; exact absurd rfl h
-    obtain ⟨fuel', st', hf', hb', hr', he'⟩ := ih hcr' (NoSpNl_drop ch rest hsn) (fun h => NoNlSp_drop ch rest (hns h)) f _ tail hinv' (by
+    obtain ⟨fuel', st', hf', hb', hr', he'⟩ := ih hcr' (fun h => NoNlSp_drop ch rest (hns h)) false f _ tail hinv' (by
       rw [List.length_append] at hf; omega)
     exact ⟨fuel', st', hf', hb', by rw [hr']; simp, he'⟩
 
